@@ -9,11 +9,24 @@
  *   and ANY random number: the delay is below the current back-off, which is at
  *   most the larger configured time; the next back-off stays within that bound;
  *   no signed overflow.
+ * MODE 3: dialer_start_pipe / listener_start_pipe (LISTENER) for a new connection: ADD_PRE, then the protocol's
+ *   pipe_start, then ADD_POST; a pipe closed by the application inside ADD_PRE (CLOSEPRE) is never started and never
+ *   announced with ADD_POST (it carries no application messages); a pipe the protocol refuses (pipe_start returns ANY
+ *   non-zero code) is closed and not announced; in every case exactly one reference is released; a dialer records the
+ *   pipe as its one pipe and resets its back-off.
+ * MODE 4: nni_pipe_remove: the pipe leaves the socket's and the endpoint's lists; if it was its dialer's current pipe
+ *   the dialer forgets it and a redial is scheduled (WHOSE 0); a pipe that is not the dialer's current one (WHOSE 1)
+ *   or belongs to a listener (WHOSE 2) schedules nothing; a closing socket is woken.
  */
 #include "env_aio.h"
 #include "core/socket.c"
-extern int env_locks_held;
+extern int env_locks_held, env_cv_wakes;
 static int seen[8], nseen, order_ok = 1, last_ev;
+static int clock_, t_pre, t_start, t_post, pipe_closes, pipe_reles;
+static nni_sock   S;
+static nni_pipe   P, P2;
+static nni_dialer D;
+static nni_listener L;
 static void
 my_cb(nng_pipe p, nng_pipe_ev ev, void *arg)
 {
@@ -24,10 +37,50 @@ my_cb(nng_pipe p, nng_pipe_ev ev, void *arg)
 		order_ok = 0;
 	last_ev = (int) ev;
 	nseen++;
+#if MODE == 3
+	if (ev == NNG_PIPE_EV_ADD_PRE) {
+		t_pre = ++clock_;
+#ifdef CLOSEPRE
+		nni_pipe_close(&P); /* what nng_pipe_close(p) from the callback does */
+#endif
+	}
+	if (ev == NNG_PIPE_EV_ADD_POST)
+		t_post = ++clock_;
+#endif
 }
-static nni_sock   S;
-static nni_pipe   P;
-static nni_dialer D;
+#if MODE == 3 || MODE == 4
+void
+nni_pipe_close(nni_pipe *p)
+{
+	nni_atomic_set_bool(&p->p_closed, true);
+	pipe_closes++;
+}
+bool
+nni_pipe_is_closed(nni_pipe *p)
+{
+	return nni_atomic_get_bool(&p->p_closed);
+}
+void
+nni_pipe_rele(nni_pipe *p)
+{
+	(void) p;
+	pipe_reles++;
+}
+/* logging is switched off (NNG_LOG_NONE is the default level): the address formatting behind it is not reached */
+nng_log_level
+nng_log_get_level(void)
+{
+	return NNG_LOG_NONE;
+}
+static int start_rv;
+static int
+my_pipe_start(void *a)
+{
+	(void) a;
+	t_start = ++clock_;
+	return start_rv;
+}
+#endif
 void
 harness(void)
 {
@@ -52,6 +105,88 @@ harness(void)
 		WITNESS("all three events");
 	if (nseen == 0)
 		WITNESS("nothing delivered");
+	CHECK(env_locks_held == 0, "no lock held");
+#elif MODE == 3
+	nni_mtx_init(&S.s_mx);
+	nni_mtx_init(&S.s_pipe_cbs_mtx);
+	S.s_want_evs = true;
+	for (int e = 0; e < NNG_PIPE_EV_NUM; e++)
+		S.s_pipe_cbs[e].cb_fn = my_cb;
+	P.p_sock                 = &S;
+	P.p_id                   = 5;
+	P.p_last_event           = NNG_PIPE_EV_NONE;
+	P.p_proto_ops.pipe_start = my_pipe_start;
+	nni_atomic_init_bool(&P.p_closed);
+	last_ev = -1;
+#ifdef BADSTART
+	start_rv = ND(vint);
+	ASSUME(start_rv != 0);
+#else
+	start_rv = 0;
+#endif
+#ifdef LISTENER
+	L.l_sock = &S;
+	listener_start_pipe(&L, &P);
+#else
+	D.d_sock     = &S;
+	D.d_inirtime = 100;
+	D.d_currtime = 800;
+	dialer_start_pipe(&D, &P);
+	CHECK(D.d_pipe == &P, "the dialer records the new pipe as its (one) pipe");
+	CHECK(D.d_currtime == D.d_inirtime, "a successful connection resets the redial back-off");
+#endif
+	CHECK(t_pre == 1, "ADD_PRE is the first thing that happens to a new pipe");
+	CHECK(pipe_reles == 1, "the creation reference is released exactly once on every path");
+#ifdef CLOSEPRE
+	CHECK(t_start == 0, "a pipe closed inside ADD_PRE is never handed to the protocol (it carries no application messages)");
+	CHECK(t_post == 0, "and ADD_POST is not raised for it");
+	WITNESS("rejected in ADD_PRE");
+#elif defined(BADSTART)
+	CHECK(t_start == 2 && t_post == 0, "a pipe the protocol refuses is not announced with ADD_POST");
+	CHECK(pipe_closes == 1 && nni_pipe_is_closed(&P), "it is closed");
+	WITNESS("refused by the protocol");
+#else
+	CHECK(t_start == 2 && t_post == 3, "ADD_PRE, then the protocol's pipe_start, then ADD_POST");
+	CHECK(pipe_closes == 0, "an accepted pipe stays open");
+	WITNESS("started");
+#endif
+	CHECK(env_locks_held == 0, "no lock held");
+#elif MODE == 4
+	nni_mtx_init(&S.s_mx);
+	nni_cv_init(&S.s_cv, &S.s_mx);
+	NNI_LIST_INIT(&S.s_pipes, nni_pipe, p_sock_node);
+	NNI_LIST_INIT(&D.d_pipes, nni_pipe, p_ep_node);
+	NNI_LIST_INIT(&L.l_pipes, nni_pipe, p_ep_node);
+	D.d_sock = &S;
+	L.l_sock = &S;
+	nni_aio_init(&D.d_tmo_aio, NULL, NULL);
+	D.d_currtime = 100;
+	D.d_inirtime = 100;
+	D.d_maxrtime = 1000;
+	P.p_sock     = &S;
+	nni_list_append(&S.s_pipes, &P);
+#if WHOSE == 2
+	P.p_listener = &L;
+	nni_list_append(&L.l_pipes, &P);
+#else
+	P.p_dialer = &D;
+	nni_list_append(&D.d_pipes, &P);
+	D.d_pipe = (WHOSE == 0) ? &P : &P2;
+#endif
+	int wakes0 = env_cv_wakes;
+	nni_pipe_remove(&P);
+	CHECK(nni_list_empty(&S.s_pipes) && nni_list_empty(&D.d_pipes) && nni_list_empty(&L.l_pipes), "the pipe leaves the socket's and its endpoint's lists");
+	CHECK(env_cv_wakes > wakes0, "a socket waiting in close for its pipes is woken");
+#if WHOSE == 0
+	CHECK(D.d_pipe == NULL, "the dialer no longer owns a pipe");
+	CHECK(env_aio_outstanding(&D.d_tmo_aio), "losing its pipe makes the dialer schedule a redial");
+	CHECK(D.d_tmo_aio.a_expire - env_now < 100, "after a delay below the current back-off");
+	WITNESS("redial scheduled");
+#else
+	CHECK(D.d_pipe == (WHOSE == 1 ? &P2 : NULL), "a dialer's current pipe is not touched by the removal of another pipe");
+	CHECK(!env_aio_outstanding(&D.d_tmo_aio), "and no redial is scheduled");
+	WITNESS("no redial");
+#endif
 	CHECK(env_locks_held == 0, "no lock held");
 #else
 	nni_mtx_init(&S.s_mx);
